@@ -36,6 +36,7 @@ pub struct InnerBucket<'b> {
 // shape of the abstract tree: does slot i of node id exist, and is it a key/value pair (as opposed to a nested bucket)?
 pub uninterp spec fn slot_exists(t: int, id: PageNodeID, i: int) -> bool;
 pub uninterp spec fn slot_is_kv(t: int, id: PageNodeID, i: int) -> bool;
+pub uninterp spec fn slot_key(t: int, id: PageNodeID, i: int) -> Seq<u8>;
 // does the tree hold an entry with this key, and is it a nested bucket?
 pub uninterp spec fn has_entry(t: int, k: Seq<u8>) -> bool;
 pub uninterp spec fn entry_is_bucket(t: int, k: Seq<u8>) -> bool;
@@ -55,6 +56,7 @@ impl<'a> PageNode<'a> {
         ensures
             r is Some <==> slot_exists(self.g_tree@, self.g_id@, index as int),
             r matches Some(l) ==> (l is Kv) == slot_is_kv(self.g_tree@, self.g_id@, index as int),
+            r matches Some(Leaf::Bucket(n, _)) ==> key_view(n) == slot_key(self.g_tree@, self.g_id@, index as int),
     { unimplemented!() }
 }
 impl<'n> Node<'n> {
@@ -84,6 +86,8 @@ fn search(key: &[u8], page_id: PageID, b: &mut InnerBucket) -> (r: (bool, Vec<Se
     ensures untouched(*final(b), *old(b)), r.1@.len() >= 1,
         r.0 ==> slot_exists(old(b).tree@, r.1@.last().id, r.1@.last().index as int),
         r.0 == has_entry(old(b).tree@, key@),
+        r.0 ==> slot_key(old(b).tree@, r.1@.last().id, r.1@.last().index as int) == key@,
+        final(b).buckets == old(b).buckets,
         r.0 ==> slot_is_kv(old(b).tree@, r.1@.last().id, r.1@.last().index as int) == !entry_is_bucket(old(b).tree@, key@),
 { unimplemented!() }
 impl<'b> InnerBucket<'b> {
@@ -96,7 +100,7 @@ impl<'b> InnerBucket<'b> {
     fn node<'a>(&'a mut self, id: PageNodeID, parent: Option<&mut Node>) -> (r: Rc<RefCell<Node<'b>>>)
         ensures final(self).meta == old(self).meta && final(self).deleted == old(self).deleted && final(self).dirty == old(self).dirty,
             final(self).muts@ == old(self).muts@ + 1, final(self).tree@ == old(self).tree@,
-            (*r).cur().g_tree@ == old(self).tree@, (*r).cur().g_id@ == id,
+            (*r).cur().g_tree@ == old(self).tree@, (*r).cur().g_id@ == id, final(self).buckets == old(self).buckets,
     { unimplemented!() }
 }
 
@@ -178,4 +182,43 @@ pub uninterp spec fn worklist_measure(s: Seq<u64>) -> nat;
 proof fn axiom_worklist_step(rest: Seq<u64>, popped: u64, after: Seq<u64>)
     ensures forall|h: Seq<u64>| h.len() > 0 && h.drop_last() == rest && h.last() == popped ==> worklist_measure(after) < #[trigger] worklist_measure(h),
 {
+}
+
+// ---- what InnerBucket::bucket_getter needs ----
+impl<'a> Clone for Bytes<'a> {
+    #[verifier::external_body]
+    fn clone(&self) -> (r: Self)
+        ensures key_view(r) == key_view(*self),
+    { unimplemented!() }
+}
+impl Clone for Pages {
+    #[verifier::external_body]
+    fn clone(&self) -> (r: Self) { unimplemented!() }
+}
+impl<'b> BucketMap<'b> {
+    #[verifier::external_body]
+    fn contains_key(&self, k: &Bytes<'b>) -> (r: bool)
+        ensures r == self.has(key_view(*k)),
+    { unimplemented!() }
+    #[verifier::external_body]
+    fn insert(&mut self, k: Bytes<'b>, v: Rc<RefCell<InnerBucket<'b>>>) -> (r: Option<Rc<RefCell<InnerBucket<'b>>>>)
+        ensures forall|q: Seq<u8>| #[trigger] final(self).has(q) == (old(self).has(q) || q == key_view(k)),
+    { unimplemented!() }
+    #[verifier::external_body]
+    fn get(&self, k: &Bytes<'b>) -> (r: Option<&Rc<RefCell<InnerBucket<'b>>>>)
+        ensures self.has(key_view(*k)) ==> r is Some,
+    { unimplemented!() }
+}
+impl<'b> InnerBucket<'b> {
+    // registers a fresh, empty child bucket under `name` and marks this bucket dirty (bucket.rs new_child)
+    #[verifier::external_body]
+    fn new_child<'a>(&'a mut self, name: Bytes<'b>) -> (r: RefMut<'a, InnerBucket<'b>>)
+        ensures
+            final(self).meta == old(self).meta && final(self).deleted == old(self).deleted && final(self).dirty,
+            final(self).tree@ == old(self).tree@, final(self).muts@ == old(self).muts@ + 1,
+            forall|q: Seq<u8>| #[trigger] final(self).buckets.has(q) == (old(self).buckets.has(q) || q == key_view(name)),
+    { unimplemented!() }
+    #[verifier::external_body]
+    fn from_meta(meta: BucketMeta, pages: Pages) -> (r: InnerBucket<'b>)
+    { unimplemented!() }
 }
